@@ -7,6 +7,7 @@ import (
 	"errors"
 	"fmt"
 	"io"
+	"runtime"
 	"runtime/debug"
 
 	"github.com/yuin/goldmark"
@@ -104,6 +105,9 @@ type RunSpec struct {
 	PolicyArg int     `json:"policy_arg,omitempty"`
 	SchedSeed uint64  `json:"sched_seed,omitempty"`
 	Decisions []int16 `json:"decisions,omitempty"` // worker released at each step; -1 = default rule
+	// GCAt: scheduling steps before which the simulator makes the Go runtime collect garbage
+	// (two cycles: sync.Pool caches of the code under test are empty afterwards)
+	GCAt []int `json:"gc_at,omitempty"`
 
 	// ProcHist: set when the violation needs what the same OS process executed before this
 	// run (state kept at package level by the code under test); replay then re-executes the
@@ -163,6 +167,7 @@ func (s *RunSpec) clone() *RunSpec {
 		}
 	}
 	c.Decisions = append([]int16(nil), s.Decisions...)
+	c.GCAt = append([]int(nil), s.GCAt...)
 	c.Expect = nil
 	return &c
 }
@@ -335,7 +340,7 @@ func execOp(e *Env, trees map[int]*treeHandle, client, idx int, op Op, y *yielde
 		src = buf
 	}
 	var w io.Writer
-	needW := op.Kind != "Parse" && op.Kind != "ParseOnly" && op.Kind != "Walk"
+	needW := op.Kind != "Parse" && op.Kind != "ParseOnly" && op.Kind != "Walk" && op.Kind != "GC"
 	if needW {
 		res.Sink = NewSink(op.Fault, uint64(client)<<32|uint64(idx))
 		st := op.Stack
@@ -387,6 +392,12 @@ func execOp(e *Env, trees map[int]*treeHandle, client, idx int, op Op, y *yielde
 		res.Err = e.auxFor(client, op.Aux).Renderer().Render(w, e.docs[t.doc], t.node)
 		t.renders++
 		t.otherRenders++
+	case "GC":
+		// an event of the environment, injected by the simulator: the Go runtime collects
+		// garbage here. Two cycles, so that sync.Pool's victim cache is emptied as well and the
+		// next Get of any pool in the code under test goes through its New function.
+		runtime.GC()
+		runtime.GC()
 	case "Walk":
 		t := trees[op.Tree]
 		if t == nil {
